@@ -597,6 +597,7 @@ fn replay(b: &Value, rng: &mut vrt::Rng, selftest: &str, only: &str) -> (Outcome
     let rops = b.u("rops");
     let script = parse_script(b.g("script"));
     let path = ShmPath::fresh();
+    let _ = shm::unlink(path.path()); // a leftover of a killed run with the same pid
     let ws: WriteState<CS, Rng> = WriteState::open(path.path(), Flag::Create, Mode::ReadWrite, cap, Rng)
         .unwrap_or_else(|e| vrt::die(&format!("WriteState::open: {e}")));
     let rs: Arc<ReadState<CS>> = Arc::new(
